@@ -40,6 +40,7 @@ type Config struct {
 	Race           bool
 	MapOrderPerm   int
 	MapOrderIn     []string
+	Conform        int // number of completed sample paths re-run natively and compared (0 = off)
 	AtomicsVisible bool
 	DeadlockOK     bool
 	SleepSets      bool
@@ -140,6 +141,8 @@ func (c *Config) apply(opts []string) error {
 			c.Race = v == "1" || v == "true"
 		case "maporder":
 			c.MapOrderPerm = atoi()
+		case "conform":
+			c.Conform = atoi()
 		case "maporderin":
 			c.MapOrderIn = append(c.MapOrderIn, strings.Split(v, ",")...)
 		case "atomics":
